@@ -1920,11 +1920,13 @@ func (r *Resolvable) walkArray(arr *Array, value *astjson.Value) bool {
 		err := r.walkNode(arr.Item, arrayValue)
 		r.popArrayPathElement()
 		if err {
-			if arr.Item.NodeKind() == NodeKindObject && arr.Item.NodeNullable() {
+			if arr.Item.NodeNullable() && (arr.Item.NodeKind() == NodeKindObject || arr.Item.NodeKind() == NodeKindArray) {
 				value.SetArrayItem(r.astjsonArena, i, astjson.NullValue)
 				continue
 			}
-			if arr.Nullable {
+			// a list that is itself a list item has no path: it cannot null itself in its parent,
+			// the enclosing list does that (above) or propagates further
+			if arr.Nullable && len(arr.Path) > 0 {
 				astjson.SetNull(r.astjsonArena, parent, arr.Path...)
 				return false
 			}
